@@ -64,11 +64,7 @@ pub fn run_case_k(c: &WCase, reps: usize) -> Outcome {
     if !matches!(out.verdict, Verdict::Held) {
         return out;
     }
-    let ev = |n: &Node| {
-        let mut v = n.events.clone();
-        v.sort_by_key(|(_, e)| e.addr());
-        v
-    };
+    let ev = canon_events;
     for (k, w) in runs.iter().enumerate().skip(1) {
         for (a, b) in w0.nodes.iter().zip(w.nodes.iter()) {
             out.count("request_lists_compared", a.game.call_hashes.len() as u64);
